@@ -288,11 +288,14 @@ fn finalize_entry(fs: &Fs, entry: WorkingEntry, game: Game, emitter: &impl Emitt
     let texture_data = finalize_entry_texture(fs, &mut specs, &entry.path, entry.loaded_texture.as_ref())?;
 
     // More defaults
+    let checked_next_power_of_two = |img_dim: u32| img_dim.checked_next_power_of_two().ok_or_else(|| {
+        emitter.emit(error!("image dimension {img_dim} of '{}' is too large", entry.path))
+    });
     if let Some(img_width) = specs.img_width.into_option() {
-        specs.rt_width.set_soft_if_missing(u32::next_power_of_two(img_width));
+        specs.rt_width.set_soft_if_missing(checked_next_power_of_two(img_width)?);
     }
     if let Some(img_height) = specs.img_height.into_option() {
-        specs.rt_height.set_soft_if_missing(u32::next_power_of_two(img_height));
+        specs.rt_height.set_soft_if_missing(checked_next_power_of_two(img_height)?);
     }
 
     // Now check that rt_width and rt_height were filled.
@@ -1174,7 +1177,7 @@ fn strip_unnecessary_sprite_ids<'a>(entry_sprites: impl IntoIterator<Item=&'a mu
             if actual_id == next_auto_sprite_id {
                 sprite.id = None;
             }
-            next_auto_sprite_id = actual_id + 1;
+            next_auto_sprite_id = actual_id.wrapping_add(1);
         }
     }
 }
@@ -1185,7 +1188,7 @@ fn all_sprite_ids<'a>(entry_sprites: impl IntoIterator<Item=&'a IndexMap<Sp<Iden
     for sprites in entry_sprites {
         for sprite in sprites.values() {
             let actual_id = sprite.id.unwrap_or(next_auto_sprite_id);
-            next_auto_sprite_id = actual_id + 1;
+            next_auto_sprite_id = actual_id.wrapping_add(1);
             out.push(actual_id);
         }
     }
